@@ -11,6 +11,7 @@ import Proofs.Kernels
 import Proofs.KernelReal
 import Proofs.KernelRealDec
 import Proofs.KernelWrap
+import Proofs.EncSpec
 
 namespace Asn1.C03
 
@@ -82,6 +83,62 @@ example :
         (.cons .req (.tagged false .application 1 (.setOf (.prim (.str 4)))) .nil)))
     let v : Val := .seq [.bool true, .int 7, .seqOf [.str [9, 9], .str [1]]]
     t.reg true Generated.derEnc true = true ∧ t.WF = true ∧ HasType t v = true ∧ noE3 true t v = true := by
+  decide +kernel
+
+/-! ### the canonical length form, at every depth -/
+
+/-- **CER: indefinite length exactly for constructed encodings, at every depth** (X.690 9.1).  Whatever the CER encoder
+    writes for a value of the region, whatever options the caller passes, is the serialisation of a well-formed tree -
+    an encoding of the value under the CER profile - in which every constructed node, however deep, has the
+    indefinite form (`80 … 00 00`) and every primitive node the definite form (`TLV.lenForm false`) -/
+theorem cer_length_form_everywhere (o : EncOpts) (hi : o.ifNotEmpty = false) (t : Ty) (v : Val) (b : Bytes)
+    (hreg : t.reg true Generated.cerEnc false = true) (hwf : t.WF = true) (hty : HasType t v = true)
+    (hn : noE3 true t v = true) (h : encItem Generated.cerEnc o t v = .ok b) :
+    ∃ x : TLV, b = x.ser ∧ x.WF ∧ x.lenForm false = true ∧ IsBer cerProfile t v x := by
+  have hR : EncRegion Generated.cerEnc cerProfile 1000 :=
+    { boolT := by decide, chunk := Or.inr rfl, setOmit := Or.inr rfl }
+  have h' : finishItem Generated.cerEnc (mkO false 1000 o.ifNotEmpty) t
+      (encValue Generated.cerEnc (mkO false 1000 o.ifNotEmpty) t v) = .ok b := h
+  obtain ⟨x, hb, hw, _, hf, hber⟩ := encode_spec Generated.cerEnc cerProfile false 1000 hR o.ifNotEmpty hi t v b hreg hwf hty hn h'
+  exact ⟨x, hb, hw, hf, hber⟩
+
+/-- DER: the definite form at every node, at every depth (X.690 10.1) -/
+theorem der_length_form_everywhere (o : EncOpts) (hi : o.ifNotEmpty = false) (t : Ty) (v : Val) (b : Bytes)
+    (hreg : t.reg true Generated.derEnc true = true) (hwf : t.WF = true) (hty : HasType t v = true)
+    (hn : noE3 true t v = true) (h : encItem Generated.derEnc o t v = .ok b) :
+    ∃ x : TLV, b = x.ser ∧ x.WF ∧ x.allDef = true ∧ IsBer derProfile t v x := by
+  have hR : EncRegion Generated.derEnc derProfile 0 :=
+    { boolT := by decide, chunk := Or.inl rfl, setOmit := Or.inr rfl }
+  have h' : finishItem Generated.derEnc (mkO true 0 o.ifNotEmpty) t
+      (encValue Generated.derEnc (mkO true 0 o.ifNotEmpty) t v) = .ok b := h
+  obtain ⟨x, hb, hw, _, hf, hber⟩ := encode_spec Generated.derEnc derProfile true 0 hR o.ifNotEmpty hi t v b hreg hwf hty hn h'
+  exact ⟨x, hb, hw, lenForm_allDef hf rfl, hber⟩
+
+/-- BER: the caller's mode at every depth - definite everywhere under `defMode=True`, indefinite at every constructed
+    node under `defMode=False` -/
+theorem ber_length_form_everywhere (o : EncOpts) (hi : o.ifNotEmpty = false) (t : Ty) (v : Val) (b : Bytes)
+    (hreg : t.reg true Generated.berEnc o.defMode = true) (hwf : t.WF = true) (hty : HasType t v = true)
+    (h : encItem Generated.berEnc o t v = .ok b) :
+    ∃ x : TLV, b = x.ser ∧ x.WF ∧ x.lenForm o.defMode = true ∧ IsBer berProfile t v x := by
+  have hR : EncRegion Generated.berEnc berProfile o.maxChunk :=
+    { boolT := by decide, chunk := Or.inr rfl, setOmit := Or.inl rfl }
+  have h' : finishItem Generated.berEnc (mkO o.defMode o.maxChunk o.ifNotEmpty) t
+      (encValue Generated.berEnc (mkO o.defMode o.maxChunk o.ifNotEmpty) t v) = .ok b := h
+  obtain ⟨x, hb, hw, _, hf, hber⟩ := encode_spec Generated.berEnc berProfile o.defMode o.maxChunk hR o.ifNotEmpty hi t v b hreg hwf hty
+    (noE3_false t v) h'
+  exact ⟨x, hb, hw, hf, hber⟩
+
+/-- non-vacuity: a record with an explicitly tagged SEQUENCE OF and an OCTET STRING, in CER: `30 80 A0 80 30 80 02 01 05 00 00 00 00 04 01 09 00 00` - indefinite at the three constructed levels, definite at the leaves -/
+example :
+    let t : Ty := .seq (.cons .req (.tagged true .context 0 (.seqOf (.prim .integer))) (.cons .req (.prim (.str 4)) .nil))
+    let v : Val := .seq [.seqOf [.int 5], .str [9]]
+    t.reg true Generated.cerEnc false = true ∧ t.WF = true ∧ HasType t v = true ∧ noE3 true t v = true := by
+  decide +kernel
+example :
+    (encItem Generated.cerEnc {}
+      (.seq (.cons .req (.tagged true .context 0 (.seqOf (.prim .integer))) (.cons .req (.prim (.str 4)) .nil)))
+      (.seq [.seqOf [.int 5], .str [9]])).toOption =
+        some [0x30, 0x80, 0xA0, 0x80, 0x30, 0x80, 0x02, 0x01, 0x05, 0, 0, 0, 0, 0x04, 0x01, 0x09, 0, 0] := by
   decide +kernel
 
 /-! ### the source itself: the octet kernels translated from /repo on this run (`Asn1/GenKernels.lean`)
